@@ -15,7 +15,7 @@ RULE = ("Shards enumerate the nine (alpha,beta) special-case cells {0,1/2,1}x{0,
         "d_r^p d_r'^q gamma|_{r=r'} evaluated with R5: sigma is ENTERED from its documented (symmetrised) definition, the "
         "force is DERIVED as -sum_i (d_i+d'_i) sigma_ij and the Hessian as (d_k+d'_k) F_j - no implementation formula "
         "is transcribed.  Tolerance 1e-9*sum|terms|.  Independently of R5: Richardson central differences of the "
-        "library's own sigma and F reproduce -F and H (1e-5 relative).  Non-trivial: a shell with l >= 1 present (the (alpha,beta) "
+        "library's own sigma and F reproduce -F and H (1e-4 of sum|terms|; step 0.02/sqrt(alpha_max)).  Non-trivial: a shell with l >= 1 present (the (alpha,beta) "
         "cell is reported in the class histogram).")
 ASSUMPTIONS = ["Ehrenfest Hessian = Jacobian dF_j/dr_k, the documented expanded formula (its headline sign contradicts its own expansion)"]
 TOL = 1e-9
@@ -109,23 +109,36 @@ def judge(case):
                 e = np.zeros(3)
                 e[k] = h
                 out.append((fn(pts + e) - fn(pts - e)) / (2 * h))
-            return out  # list over k of d/dr_k
+            return np.stack(out, axis=-1)  # [..., k] = d/dr_k
+
+        amax = max(max(s_["exps"]) for s_ in shells)
 
         def rich(fn):
-            h = 2e-3
+            """Richardson-extrapolated central difference and its own error estimate (|D(h/2) - D(h)|)."""
+            h = 2e-2 / np.sqrt(max(1.0, amax))
             d1, d2 = fd(fn, h), fd(fn, h / 2)
-            return [(4 * y - x) / 3 for x, y in zip(d1, d2)]
+            return (4 * d2 - d1) / 3, np.abs(d2 - d1)
 
-        dsig = rich(lambda p: lib(gs.evaluate_stress_tensor, g, bas, p, **kw))  # [k][n,i,j]
-        div = -sum(dsig[i][:, i, :] for i in range(3))
-        d, at = maxdev(div, gf, np.maximum(np.abs(fs), 1e-12))
-        if not d <= 1e-5:
-            return v.fail(f"finite-difference divergence of the library's stress tensor differs from -(its force) by {d:.3e} of sum|terms| at {at}")
-        dF = rich(lambda p: lib(gs.evaluate_ehrenfest_force, g, bas, p, **kw))  # [k][n,j]
-        jac = np.stack(dF, axis=2)  # [n, j, k]
-        d, at = maxdev(jac, gh, np.maximum(np.abs(hs), 1e-12))
-        if not d <= 1e-5:
-            return v.fail(f"finite-difference Jacobian of the library's force differs from its Hessian by {d:.3e} of sum|terms| at {at}")
+        def fdcmp(what, num, est, ana, sc):
+            # a difference quotient samples the neighbourhood of the point: judge against the largest component at the
+            # point plus the quotient's own error estimate (an analytic value that vanishes by symmetry at the point
+            # would otherwise be compared with the truncation error of its neighbourhood)
+            n = num.shape[0]
+            ps = np.maximum(np.abs(sc), np.abs(ana)).reshape(n, -1).max(axis=1) + est.reshape(n, -1).max(axis=1) * 1e3 + 1e-12
+            d, at = maxdev(num, ana, ps.reshape((n,) + (1,) * (num.ndim - 1)) * np.ones_like(num))
+            v.info["fd_dev"] = max(v.info.get("fd_dev", 0.0), d)
+            if not d <= 1e-4:
+                return v.fail(f"finite-difference {what}: {d:.3e} of the local magnitude at {at}")
+            return None
+
+        dsig, esig = rich(lambda p: lib(gs.evaluate_stress_tensor, g, bas, p, **kw))  # [n, i, j, k]
+        div = -np.einsum("niji->nj", dsig)
+        ediv = np.einsum("niji->nj", esig)
+        if fdcmp("divergence of the library's stress tensor differs from -(its force)", div, ediv, gf, fs):
+            return v
+        jac, ejac = rich(lambda p: lib(gs.evaluate_ehrenfest_force, g, bas, p, **kw))  # [n, j, k]
+        if fdcmp("Jacobian of the library's force differs from its Hessian", jac, ejac, gh, hs):
+            return v
     return v
 
 
